@@ -15,6 +15,11 @@ def level_ok(keypred, name):
 
 
 def run(prog, chk):
+    insert_table(prog, chk)
+    _run(prog, chk)
+
+
+def _run(prog, chk):
     chk.explanation = (
         "(R13) KSI_BlockSigner_reset re-creates what KSI_BlockSigner_new creates: the same leaf processors are appended to the "
         "builder's list in the same order, the signature is dropped, prevLeaf is restored from origPrevLeaf and the builder is a fresh "
@@ -224,3 +229,86 @@ def run(prog, chk):
     chk.rule("C16.owner", "tree builder / block signer: owning locals released exactly once on every exit; a caller's node is never destroyed on an error exit", floor=10)
     ownership_obligations(prog, chk, "C16.owner", {"tree_builder.c", "blocksigner.c"})
     absorbed_obligations(prog, chk, "C16.owner", {"tree_builder.c", "blocksigner.c"})
+
+
+def insert_table(prog, chk):
+    """insertNode over (slot occupancy, join outcome) of up to three levels: a refused node leaves the forest exactly as it was."""
+    import itertools
+    from ksirules.interp import inline_model
+    chk.rule("C16.insert", "insertNode: on success the carry ends in the first free slot; on failure the forest is unchanged and the "
+                           "caller keeps its node (decision table over slot occupancy and join outcomes)", floor=12)
+    fi = prog.fn("insertNode", "tree_builder.c")
+    bp, np2, ap = [p["n"] for p in fi.params]
+    ERRJ = 0xffff
+    for occ in itertools.product((0, 1), repeat=3):
+        # joins happen at every occupied slot below the first free one; enumerate where the first failing join is (None = all succeed)
+        depth = 0
+        while depth < 3 and occ[depth]:
+            depth += 1
+        for fail_at in [None] + list(range(depth)):
+            inputs = {bp: Ptr("B"), np2: Ptr("N"), ap: 0, "B->ctx": Ptr("ctx"), "B->hsr": Ptr("hsr"), "N->level": 0}
+            for s in range(4):
+                inputs["B->stack[%d]" % s] = Ptr("S%d" % s) if (s < 3 and occ[s]) else 0
+                inputs["S%d->level" % s] = s
+            joins = []
+
+            def join(I, p, node, args, fail_at=fail_at):
+                k = len(joins)
+                joins.append((args[2], args[3]))
+                if fail_at is not None and k == fail_at:
+                    return ERRJ
+                out = strip(node["a"][4])
+                nm = "J%d" % k
+                I.write(p, I.canon(p, I.key_of(p, out["e"])) if isinstance(out, dict) and out.get("k") == "un" else "root", Ptr(nm))
+                I.write(p, "%s->level" % nm, k + 1)
+                I.write(p, "%s->leftChild" % nm, args[2])
+                I.write(p, "%s->rightChild" % nm, args[3])
+                for a in (args[2], args[3]):
+                    if isinstance(a, Ptr):
+                        I.write(p, "%s->parent" % a.what, Ptr(nm))
+                return 0
+            freed = []
+            ov = {"KSI_TreeNode_join": join, "KSI_TreeNode_free": lambda I, p, n, a, freed=freed: (freed.append(a[0]), TOP)[1]}
+            I = Interp(fi, inputs=inputs, call_model=inline_model(prog, {"insertNode"}, fallback=succeed_model(prog, ov)), on_unknown="stop", prog=prog)
+            paths = I.run()
+            chk.paths += len(paths)
+            inst = "insertNode[slots %s,%s]" % ("".join("x" if o else "-" for o in occ), "all joins succeed" if fail_at is None else "join %d fails" % (fail_at + 1))
+            if len(paths) != 1 or paths[0].undetermined:
+                raise AnalysisBroken("insertNode: evaluation not determined for %s: %s" % (inst, [q.undetermined[:1] for q in paths]))
+            q = paths[0]
+            final = {}
+            for s in range(4):
+                st = q.stores("B->stack[%d]" % s)
+                final[s] = st[-1][2] if st else inputs["B->stack[%d]" % s]
+            before = {s: inputs["B->stack[%d]" % s] for s in range(4)}
+            if fail_at is None:
+                want = dict(before)
+                for s in range(depth):
+                    want[s] = 0
+                want[depth] = Ptr("J%d" % (depth - 1)) if depth else Ptr("N")
+                ok = q.ret == 0 and final == want
+                exp = "KSI_OK, slots below %d emptied, the carried node in slot %d" % (depth, depth)
+            else:
+                # nothing of the caller's may have been released, links of surviving nodes must not point to released joins
+                released = {f.what for f in freed if isinstance(f, Ptr)}
+                dangling = []
+                for s in range(3):
+                    if occ[s]:
+                        par = [t[2] for t in q.stores("S%d->parent" % s)]
+                        if par and isinstance(par[-1], Ptr) and par[-1].what in released:
+                            dangling.append("S%d->parent" % s)
+                parn = [t[2] for t in q.stores("N->parent")]
+                if parn and isinstance(parn[-1], Ptr) and parn[-1].what in released:
+                    dangling.append("N->parent")
+                detached = True
+                for j in released:
+                    for side in ("leftChild", "rightChild"):
+                        st = [t[2] for t in q.stores("%s->%s" % (j, side))]
+                        if st and st[-1] != 0:
+                            detached = False
+                ok = q.ret not in (0, None) and final == before and "N" not in released and not any(r.startswith("S") for r in released) and detached and not dangling
+                exp = "an error, every slot as before, the caller's node and the slot contents not released"
+            chk.ob("C16.insert", inst, ok,
+                   "expected %s; source: status %s, slots before %s, after %s, released %s" %
+                   (exp, hex(q.ret) if isinstance(q.ret, int) else q.ret, [str(before[s]) for s in range(4)], [str(final[s]) for s in range(4)],
+                    [str(f) for f in freed if f != 0]), loc=fi.loc(), fn=fi)
